@@ -159,3 +159,89 @@ func (t *c05FailOnce) Write(ctx context.Context, r *Rpc) error {
 	}
 	return t.Script.Write(ctx, r)
 }
+
+// c05LongBacklog: the peer sends one stream far more envelopes than its caller has taken (150 messages and
+// the trailer, while the caller is not reading at all). However the library buffers or blocks, when the
+// caller finally reads it gets the messages in the order they were sent, every one, then the end.
+func c05LongBacklog(r *Run) {
+	if !r.Want("longbacklog") {
+		return
+	}
+	const n = 150
+	for rep, reps := 0, r.Scale(2, 20); rep < reps && r.NumViolations() == 0; rep++ {
+		in := map[string]any{"messages_sent_before_the_caller_reads": n, "rep": rep}
+		r.Progress("longbacklog", in)
+		sc := NewScript(0)
+		sc.Out = make(chan *Rpc, 64)
+		cc := goat.NewClientConn(sc, "c", "s")
+		cs, err := cc.NewStream(context.Background(), descBidi, mBidi)
+		if err != nil {
+			r.Violate("longbacklog.open", "ops", "stream could not be opened", in, err.Error(), nil)
+			return
+		}
+		open := <-sc.Out
+		var fed atomic.Int64
+		feederDone := make(chan struct{})
+		stop := make(chan struct{})
+		go func() {
+			defer close(feederDone)
+			for i := 0; i <= n; i++ {
+				e := &Rpc{Id: open.Id, Header: &goatorepo.RequestHeader{Method: mBidi}}
+				if i < n {
+					b, _ := goat_marshal(&wrapperspb.BytesValue{Value: []byte(fmt.Sprintf("m%03d", i))})
+					e.Body = &goatorepo.Body{Data: b}
+				} else {
+					e.Status, e.Trailer = &goatorepo.ResponseStatus{Code: 0, Message: "OK"}, &goatorepo.Trailer{}
+				}
+				select {
+				case sc.In <- e:
+					fed.Add(1)
+				case <-stop:
+					return
+				}
+			}
+		}()
+		// wait until the feeder has stalled (the library takes no more without a reader) or is through
+		last, still := int64(-1), 0
+		for still < 10 && fed.Load() <= n {
+			time.Sleep(2 * time.Millisecond)
+			if v := fed.Load(); v == last {
+				still++
+			} else {
+				last, still = v, 0
+			}
+		}
+		r.CountN("longbacklog.taken_without_reader", int(fed.Load()))
+		var got []string
+		var term error
+		if !within(3*hangTimeout, func() {
+			for {
+				b, err := recvB(cs)
+				if err != nil {
+					term = err
+					return
+				}
+				got = append(got, string(b))
+			}
+		}) {
+			r.Violate("longbacklog.hang", "ops", "the caller did not get to the end of its stream", in, goroutineDump(), nil)
+			close(stop)
+			sc.FailRead(io.ErrUnexpectedEOF)
+			return
+		}
+		for i, g := range got {
+			if want := fmt.Sprintf("m%03d", i); g != want {
+				r.Violate("longbacklog.order", "ops", "per-call order of envelopes not preserved", in, fmt.Sprintf("position %d: received %s", i, g), want)
+				break
+			}
+		}
+		if len(got) != n || term != io.EOF {
+			r.Violate("longbacklog.complete", "ops", "the caller did not receive every message followed by io.EOF", in, fmt.Sprintf("%d messages, then %v", len(got), term), fmt.Sprintf("%d messages, then EOF", n))
+		}
+		close(stop)
+		<-feederDone
+		r.Eval(fmt.Sprintf("longbacklog/%d", rep), true)
+		r.Count("longbacklog.streams")
+		sc.FailRead(io.ErrUnexpectedEOF)
+	}
+}
